@@ -2,7 +2,7 @@
 # tools/sweep.sh <tier> <seed>... — runs every claimed check at the given seeds; prints one line per (seed,id).
 # Evidence files are restored to the committed ones afterwards when run inside a git checkout (use for silence sweeps).
 TIER=$1; shift
-cd "$(dirname "$0")/.."
+cd "$(dirname "$0")/.."; mkdir -p work
 IDS=$(python3 -c "import json;print(' '.join(c['property_id'] for c in json.load(open('MANIFEST.json'))['checks']))")
 for seed in "$@"; do
   for id in $IDS; do
